@@ -248,7 +248,7 @@ inductive Handler
   | inlineBitsBody | enumBody | enumValues | enumValue | enumValueBody | externalBody
   | commentLine | eol | emptyList | emptyString | identity | concatenate
   | concatenateWithPrefixSpaces | concatenateWithSpaces | concatenateLists
-  | docRstrip | additiveExpressionRight   -- handlers introduced by fixes/C11-*.patch
+  | docRstrip | additiveExpressionRight
   deriving DecidableEq, Repr, Inhabited
 
 /-- The Python function names, as they appear in the regenerated table. -/
@@ -603,14 +603,16 @@ def hIdentity : List Fmt → Option Fmt
   | [x] => some x
   | _ => none
 
-/-- `_doc` of fixes/C11-inline-doc-trailing-blanks.patch: `documentation.rstrip()`. -/
+/-- `_doc` (`doc -> Documentation`): `documentation.rstrip()` — trailing blanks of the token
+must not count towards column widths. -/
 def hDocRstrip : List Fmt → Option Fmt
   | [d] => do
     let d ← asStr d
     pure (.str (rstrip d))
   | _ => none
 
-/-- `_additive_expression_right` of fixes/C11-minus-minus.patch. -/
+/-- `_additive_expression_right`: a binary `-` and an operand that starts with `-` are kept
+apart by one blank (`a - -b` must not become `a--b`, a documentation token). -/
 def hAdditiveExpressionRight : List Fmt → Option Fmt
   | [operator, operand] => do
     let operator ← asStr operator
@@ -732,26 +734,23 @@ def collapseNewlines (l : List Tok) : List Tok := collapseAux true false l
 inductive SanityResult
   | ok                      -- returns []
   | differs (i : Nat)       -- returns ["BUG: Symbol i differs ..."]
-  | indexError (i : Nat)    -- f_tokens[i] raises IndexError
-  | countDiffers            -- (fixes/C11-sanity-check-length.patch) "BUG: Token count differs"
+  | countDiffers            -- returns ["BUG: Token count differs: …"]
   deriving DecidableEq, Repr
 
-/-- The loop `for i in range(len(o_tokens))` over the collapsed streams. -/
+/-- The comparison of the collapsed streams: `for i in range(min(len(o_tokens),
+len(f_tokens)))` reports the first position whose symbol or stripped text differs; when
+the common prefix agrees, `len(o_tokens) != len(f_tokens)` is reported; otherwise `[]`.
+(The length is looked at only after the common prefix, so a differing symbol is still
+reported as such.) -/
 def sanityLoop : Nat → List Tok → List Tok → SanityResult
-  | _, [], _ => .ok
-  | i, _ :: _, [] => .indexError i
+  | _, [], [] => .ok
+  | _, [], _ :: _ => .countDiffers
+  | _, _ :: _, [] => .countDiffers
   | i, o :: os, f :: fs =>
     if o.sym ≠ f.sym ∨ strip o.text ≠ strip f.text then .differs i
     else sanityLoop (i + 1) os fs
 
 def sanityCheck (formatted original : List Tok) : SanityResult :=
   sanityLoop 0 (collapseNewlines original) (collapseNewlines formatted)
-
-/-- The loop with the length comparison of fixes/C11-sanity-check-length.patch in front. -/
-def sanityLoopLen (o f : List Tok) : SanityResult :=
-  if o.length ≠ f.length then .countDiffers else sanityLoop 0 o f
-
-def sanityCheckLen (formatted original : List Tok) : SanityResult :=
-  sanityLoopLen (collapseNewlines original) (collapseNewlines formatted)
 
 end Emboss.Fmt
